@@ -1,3 +1,8 @@
 # rows for checks built after the first six; NOT_APPLICABLE maps id -> reason for properties deliberately not claimed
-ROWS = {}
+ROWS = {
+ "C17": ("exploration",
+  "exhaustive enumeration of every enum domain + property-based testing (rapid) against documented-name tables and a pinned snapshot",
+  "Every value of every exported enum/identifier stringer is enumerated over its whole (8/16-bit, signed from minimum) domain, tag.ID x IfdType through TagName, CameraModel over the make ranges; oracles: returns without panic, documented value => documented name (tables written in the check), whole relation equals a pinned snapshot with the documented fallback for non-members, parse round trips for image types and XMP namespaces. The enumerated part is exhaustive for the domains listed in the evidence.",
+  "Trusted: the documented-name tables in props/c17/tables.go (transcribed from doc comments / ExifTool / TIFF / Exif) and testdata/golden.json (regression snapshot). Unexported stringers are out of scope here."),
+}
 NOT_APPLICABLE = {}
